@@ -55,7 +55,7 @@ impl Check for C12 {
     }
     fn cases(&self, thorough: bool) -> usize {
         if thorough {
-            1_000_000
+            400_000
         } else {
             40_000
         }
